@@ -30,7 +30,8 @@ RBatchEntry(d) ==
   Pick(<<E_ok, E_ok, E_okn, E_apperr, E_nometh, E_badpar, E_invalid, E_badid, E_notif, E_notif, E_notifnm,
          E_scalar, E_memtyp, E_sub(1), E_sub(2), E_subn(1)>>)
 RBatch(d) == LET n == Pick(<<1, 2, 2, 2, 3, 3, 3>>) IN [i \in 1..n |-> RBatchEntry(i)]
-RFrame(d) ==
+RFm(d) == Pick(<<"whole", "whole", "whole", "frag", "frag", "pad", "pad">>)
+RFrame0(d) ==
   LET r == RandomElement(1..100) IN
   IF r <= 26 THEN S(RSingleEntry(d))
   ELSE IF r <= 44 THEN S(E_sub(RKey(d)))
@@ -42,6 +43,8 @@ RFrame(d) ==
   ELSE IF r <= 94 THEN Big
   ELSE IF r <= 97 THEN BigTail
   ELSE S(E_boom(RKey(d)))
+(* ... in a random framing (an oversized message is what it is) *)
+RFrame(d) == LET fr == RFrame0(d) IN IF fr.k \in {"big", "bigtail"} THEN fr ELSE WithFm(fr, RFm(d))
 
 Parked == {k \in Subs : gor[k] = "pending" /\ ~act[k]}
 Urgent == {k \in Subs : gor[k] = "pending" /\ act[k]}
@@ -91,7 +94,7 @@ Emit ==
   /\ PrintT(ToJson([steps |-> hist, sub |-> sub, natt |-> natt, srv |-> srv, client |-> client, shut |-> shut,
                     nread |-> nread, cur |-> cur]))
   /\ sent' = <<>> /\ nread' = 0 /\ cur' = 0
-  /\ est' = [i \in Idx |-> "idle"] /\ pend' = [i \in Idx |-> JR!NoResp] /\ acc' = <<>> /\ tail' = FALSE
+  /\ est' = [i \in Idx |-> "idle"] /\ pend' = [i \in Idx |-> JR!NoResp] /\ acc' = <<>> /\ tail' = FALSE /\ rem' = "none"
   /\ wire' = <<>> /\ wip' = [w \in Writers |-> NoFrame]
   /\ sub' = [k \in Subs |-> "none"] /\ owner' = [k \in Subs |-> <<0, 0>>] /\ unsubby' = [k \in Subs |-> <<0, 0>>]
   /\ act' = [k \in Subs |-> FALSE] /\ ierr' = [k \in Subs |-> FALSE]
